@@ -53,6 +53,8 @@ pub struct DcCfg {
     pub enhanced: bool,
     /// local clock = global simulated time + this offset (ns)
     pub clock_offset: u64,
+    /// if set, every read of the system time register (0x0910) returns exactly this value
+    pub systime_override: Option<u64>,
 }
 
 #[derive(Clone, Debug)]
@@ -797,7 +799,7 @@ impl Segment {
                     }
                     if addressed {
                         if ado as usize == R_DC_SYSTIME {
-                            let t = self.local_time(i).wrapping_add(self.sys_offset(i));
+                            let t = self.devices[i].dc.systime_override.unwrap_or_else(|| self.local_time(i).wrapping_add(self.sys_offset(i)));
                             let b = t.to_le_bytes();
                             let l = len.min(8);
                             buf[..l].copy_from_slice(&b[..l]);
@@ -826,11 +828,11 @@ impl Segment {
         let a = ado as usize;
         match kind {
             1 => {
-                if a == R_DC_SYSTIME && len == 8 {
-                    let t = self.local_time(i).wrapping_add(self.sys_offset(i));
+                if a == R_DC_SYSTIME && len == 8 && self.devices[i].dc.supported {
+                    let t = self.devices[i].dc.systime_override.unwrap_or_else(|| self.local_time(i).wrapping_add(self.sys_offset(i)));
                     data.copy_from_slice(&t.to_le_bytes());
                     *wkc = wkc.wrapping_add(1);
-                } else if a == R_DC_RECV && len == 8 {
+                } else if a == R_DC_RECV && len == 8 && self.devices[i].dc.supported {
                     let t = self.devices[i].port_times[0];
                     data.copy_from_slice(&t.to_le_bytes());
                     *wkc = wkc.wrapping_add(1);
